@@ -128,23 +128,30 @@ def special_files_scenario(viol):
         os.mkfifo(pr.path("live.log"))
         sk = socket.socket(socket.AF_UNIX)
         sk.bind(pr.path("daemon.ctl"))
+        os.symlink("nowhere-yet", pr.path("dangling.log"))
+        os.makedirs(pr.path("somedir"))
+        pr.write("somedir/keep", "k")
+        os.symlink("somedir", pr.path("dirlink.log"))
         pr.write("default.log.do", 'echo "made by the rule" >"$3"\n')
         pr.write("default.ctl.do", ":\n")
         pr.write("user.do", 'redo-ifchange live.log daemon.ctl\necho user >"$3"\n')
-        before = {n: (os.lstat(pr.path(n)).st_ino, S.S_IFMT(os.lstat(pr.path(n)).st_mode)) for n in ("live.log", "daemon.ctl")}
+        names = ("live.log", "daemon.ctl", "dangling.log", "dirlink.log")
+        kinds = {"live.log": "named pipe", "daemon.ctl": "unix socket", "dangling.log": "symbolic link to nothing", "dirlink.log": "symbolic link to a directory"}
+        before = {n: (os.lstat(pr.path(n)).st_ino, S.S_IFMT(os.lstat(pr.path(n)).st_mode)) for n in names}
         outs = []
-        for argv in (["redo-ifchange", "live.log"], ["redo", "live.log"], ["redo", "daemon.ctl"], ["redo-ifchange", "user"], ["redo", "user"]):
+        for argv in (["redo-ifchange", "live.log"], ["redo", "live.log"], ["redo", "daemon.ctl"], ["redo-ifchange", "user"], ["redo", "user"],
+                     ["redo-ifchange", "dangling.log"], ["redo", "dangling.log"], ["redo-ifchange", "dirlink.log"], ["redo", "dirlink.log"]):
             rc, o, e = pr.run(argv, timeout=30)
             outs.append((argv, rc, e[-300:]))
         problems = []
-        for n in ("live.log", "daemon.ctl"):
+        for n in names:
             try:
                 st = os.lstat(pr.path(n))
                 now = (st.st_ino, S.S_IFMT(st.st_mode))
             except FileNotFoundError:
                 now = None
             if now != before[n]:
-                problems.append("%s (a %s made by the user) %s" % (n, "named pipe" if n == "live.log" else "unix socket", "was removed" if now is None else "was replaced (inode/type %r -> %r)" % (before[n], now)))
+                problems.append("%s (a %s made by the user) %s" % (n, kinds[n], "was removed" if now is None else "was replaced (inode/type %r -> %r)" % (before[n], now)))
         sk.close()
         if problems:
             p = write_replay("C11", "special-files", dict(kind="impl-monitor", problems=problems, commands=outs,
